@@ -1073,8 +1073,16 @@ func (u *bgUnit) obSlice(z *zone, x *ast.SliceExpr) {
 		lo = u.linear(x.Low)
 	}
 	hi := ln
+	hiLow := ln // a lower term of the high bound (differs from hi for a sum of two variables)
 	if x.High != nil {
 		hi = u.linear(x.High)
+		hiLow = hi
+		if !hi.ok {
+			// hdr + n with hdr in a known interval: bounded below and above by n + const
+			if l2, h2, ok := u.linear2(z, x.High); ok {
+				hiLow, hi = l2, h2
+			}
+		}
 	}
 	if !lo.ok || !hi.ok {
 		ob.why = "slice bound is not a linear term"
@@ -1087,7 +1095,7 @@ func (u *bgUnit) obSlice(z *zone, x *ast.SliceExpr) {
 			problems = append(problems, "low >= 0")
 		}
 	}
-	if !u.leq(z, lo, hi) {
+	if !u.leq(z, lo, hiLow) {
 		problems = append(problems, "low <= high")
 	}
 	if x.High != nil && !u.leq(z, hi, ln) {
